@@ -203,19 +203,21 @@ Section Visitor.
 
   (* "if (is_a_Number( *term )) ... else { if (is_a<Mul>( *term ) && !coef->is_one()) tidy up ... }":
      [cn] is the coefficient used in the Number and tidy branches, [cd] the one of the plain branch
-     (the C++ multiplies the same numbers in a different order) *)
-  Definition x_add_product (st : xst) (cn cd : res number) (term : expr) : res xst :=
+     (the C++ multiplies the same numbers in a different order).  [flat] = deep: in deep mode the plain
+     branch goes through _coef_dict_add_term (the product may be an Add: sqrt(x+y)*sqrt(x+y)), in shallow
+     mode through Add::dict_add_term (fix-3) *)
+  Definition x_add_product (flat : bool) (st : xst) (cn cd : res number) (term : expr) : res xst :=
     match term with
     | ENum tn => x_addnum st (do c <- cn; o_mulnum Op c tn)
     | EMul mc md =>
         if negb (num_is_one mc) then
           do t <- o_mfd Op (NInt 1) md; x_dat st (do c <- cn; o_mulnum Op c mc) t
-        else do c <- cd; x_cdat st c term
-    | _ => do c <- cd; x_cdat st c term    (* _coef_dict_add_term: the term may be an Add (fix-3) *)
+        else if flat then do c <- cd; x_cdat st c term else x_dat st cd term
+    | _ => if flat then do c <- cd; x_cdat st c term else x_dat st cd term
     end.
 
   (* mul_expand_two(a, b) with both operands Add *)
-  Definition x_mul_add_add (st : xst) (multiply : number) (ca : number) (da : adict) (cb : number) (db : adict)
+  Definition x_mul_add_add (flat : bool) (st : xst) (multiply : number) (ca : number) (da : adict) (cb : number) (db : adict)
     : res xst :=
     do st0 <- x_addnum st (do cc <- o_mulnum Op ca cb; o_mulnum Op multiply cc);
     do st1 <- fold_res (fun s p =>
@@ -223,27 +225,27 @@ Section Visitor.
                 do s' <- fold_res (fun s q =>
                            do term <- o_mul Op (fst p) (fst q);
                            let tq := o_mulnum Op temp (snd q) in
-                           x_add_product s tq tq term) db s;
+                           x_add_product flat s tq tq term) db s;
                 x_dat s' (o_mulnum Op cb temp) (fst p)) da st0;
     do temp <- o_mulnum Op ca multiply;
     fold_res (fun s q => x_dat s (o_mulnum Op temp (snd q)) (fst q)) db st1.
 
   (* mul_expand_two(a, b) with b an Add and a not *)
-  Definition x_mul_other_add (st : xst) (multiply : number) (a : expr) (cb : number) (db : adict) : res xst :=
+  Definition x_mul_other_add (flat : bool) (st : xst) (multiply : number) (a : expr) (cb : number) (db : adict) : res xst :=
     let ct := as_coef_term a in
     do a_coef <- o_mulnum Op (fst ct) multiply;
     let a_term := snd ct in
     do st1 <- fold_res (fun s q =>
                 do term <- o_mul Op a_term (fst q);
-                x_add_product s (o_mulnum Op (snd q) a_coef) (o_mulnum Op a_coef (snd q)) term) db st;
+                x_add_product flat s (o_mulnum Op (snd q) a_coef) (o_mulnum Op a_coef (snd q)) term) db st;
     if expr_eqb a_term e_one then x_addnum st1 (o_mulnum Op cb a_coef)
     else x_dat st1 (o_mulnum Op cb a_coef) a_term.
 
-  Definition x_mul_expand_two (st : xst) (multiply : number) (a b : expr) : res xst :=
+  Definition x_mul_expand_two (flat : bool) (st : xst) (multiply : number) (a b : expr) : res xst :=
     match a, b with
-    | EAdd ca da, EAdd cb db => x_mul_add_add st multiply ca da cb db
-    | EAdd ca da, _ => x_mul_other_add st multiply b ca da          (* mul_expand_two(b, a) *)
-    | _, EAdd cb db => x_mul_other_add st multiply a cb db
+    | EAdd ca da, EAdd cb db => x_mul_add_add flat st multiply ca da cb db
+    | EAdd ca da, _ => x_mul_other_add flat st multiply b ca da          (* mul_expand_two(b, a) *)
+    | _, EAdd cb db => x_mul_other_add flat st multiply a cb db
     | _, _ => do m <- o_mul Op a b; x_cdat st multiply m
     end.
 
@@ -338,7 +340,7 @@ Section Visitor.
                   do b <- o_mfd Op c (merase k d);
                   do a' <- expand_if_deep a;
                   do b' <- expand_if_deep b;
-                  x_mul_expand_two st multiply a' b'
+                  x_mul_expand_two deep st multiply a' b'
               end
         | EPow base ex =>
             do base' <- expand_if_deep base;
